@@ -22,6 +22,14 @@
      only the float64 operations (flog a b = math.Log(float64(a)/float64(b)), fadd, fgt) and
      strings.Fields / strings.ToLower; nothing is assumed about them.
      C15_scored_is_infer_with: infer_scored = infer_with ph Fixed ... choose for a valid choose.
+   * Model/InferFs.v -- [infer_cmd_fs ... fs troot target]: the command with the training journal read as
+     the code reads it (syntax.ParseFileRecursively): a file tree, include resolution and cycle detection by
+     Model/Loader.v (C05, C14), training on every transaction of every visited file.  See the section
+     THE TRAINING JOURNAL OVER AN INCLUDE TREE below: C15_training_layout_irrelevant (the output is a function
+     of the multiset of training transactions: shape of the tree, file names, order do not matter),
+     C15_training_arrival_irrelevant, C15_training_cycle_is_error / _bad_file_is_error (exit 1, nothing
+     printed), C15_training_without_includes / _tree_as_one_file (it is the one-file command), and the
+     theorems of the one-file command restated under the names C15_fs_xxx.
    Meanings and gaps: Spec/FormatSpec.v; relations: Proofs/InferProofs.v
      side_rel ph v cands acc acc' other : acc' = acc if acc is not the placeholder; otherwise
         acc' is a candidate different from [other] (Macro = false), or there is no such
@@ -67,10 +75,12 @@
           choice of the binary to be the model's (drv_c15.ml, verdict choice-differs-from-model); that the binary
           computes the same float64 values on every run is a fact about the Go runtime, sampled by 10 runs.      *)
 From Coq Require Import String ZArith List Bool Permutation Lia.
+From Knut Require Import Model.Loader Proofs.LoaderProofs Proofs.OrderLayout.
 From Knut Require Import Model.Bytes Model.Utf8 Model.UnicodeTables Model.Scanner Model.Parser
   Model.SynPrinter Spec.SyntaxSpec Proofs.ScannerProofs Proofs.ParserProofs Spec.FormatSpec
   Model.SynRender Proofs.FormatProofs Model.Bayes Model.BayesScore Spec.InferSpec Proofs.InferProofs
-  Proofs.RoundTripLeaf Proofs.RoundTripTop Proofs.InferRoundTrip Proofs.InferChoice.
+  Proofs.RoundTripLeaf Proofs.RoundTripTop Proofs.InferRoundTrip Proofs.InferChoice
+  Model.InferFs Proofs.InferFs.
 Import ListNotations.
 Open Scope Z_scope.
 
@@ -333,6 +343,204 @@ Theorem C15_candidates_sorted : forall ph training,
 Proof. intros. apply InferOrder.sort_dedup_ssorted. Qed.
 Print Assumptions C15_candidates_sorted.
 
+(* ================================================================================================
+   THE TRAINING JOURNAL OVER AN INCLUDE TREE (Model/InferFs.v, Proofs/InferFs.v, Proofs/LoaderVisits.v)
+
+   inferRunner.train reads the training journal with syntax.ParseFileRecursively: includes are
+   followed, the files reach the trainer in scheduling order, every transaction of every file
+   updates the model.  [tfs] maps cleaned relative paths to file bytes.  The include resolution
+   is Model/Loader.v [load] (C05, C14) run on the [skeleton] of the file system: a file that
+   parses is [its tag; its include targets], a file that does not parse is FBad.
+     training_files fs root = TrOk files | TrErr e | TrFuel       the files visited, once per visit
+     training_sems fs files                                       the meanings the trainer sees
+     infer_cmd_fs ... fs troot target       `knut infer -a ph -t TROOT TARGET` with the real choice
+     infer_cmd_fs_arrival arrive ...        the same, files arriving in the order [arrive files]
+     infer_with_fs ph v choose fs troot target                    the same for a choice function
+   [visits sk root vs] (Proofs/OrderLayout.v, C05): [vs] is the depth-first visit list of the
+   include tree below [root]; it has a derivation iff that tree is finite and all its files parse.
+   [trxs] keeps the transactions of a list of meanings (everything else is ignored by the trainer).
+   ================================================================================================ *)
+
+(* the files the trainer gets are, up to order, the visit list of the include tree (C05_layout) *)
+Theorem C15_training_files_are_visits : forall letter digit fs root files,
+  training_files letter digit fs root = TrOk files ->
+  exists vs, visits (skeleton letter digit fs) root vs /\ Permutation files vs.
+Proof. exact training_files_visits. Qed.
+Print Assumptions C15_training_files_are_visits.
+
+(* conversely a finite include tree of files that parse loads, and the files are its visit list *)
+Theorem C15_finite_tree_loads : forall letter digit fs root vs,
+  visits (skeleton letter digit fs) root vs ->
+  exists files, training_files letter digit fs root = TrOk files /\ Permutation files vs.
+Proof. exact visits_training_files. Qed.
+Print Assumptions C15_finite_tree_loads.
+
+(* the load of the training journal ends on every file system (C14_load_terminates) *)
+Theorem C15_training_load_terminates : forall letter digit fs root, training_files letter digit fs root <> TrFuel.
+Proof. exact training_files_fuel. Qed.
+Print Assumptions C15_training_load_terminates.
+
+(* THE OUTPUT DEPENDS ONLY ON THE MULTISET OF TRAINING TRANSACTIONS: two file systems -- any
+   shapes of the include trees, any file names, any distribution of the directives over the
+   files, any order inside the files -- whose visited files hold permutations of the same
+   transactions give byte-identical results on every target. *)
+Theorem C15_training_layout_irrelevant :
+  forall F flog fadd fgt fields lower ph letter digit fs1 root1 vs1 fs2 root2 vs2 target,
+  visits (skeleton letter digit fs1) root1 vs1 -> visits (skeleton letter digit fs2) root2 vs2 ->
+  Permutation (trxs (training_sems letter digit fs1 vs1)) (trxs (training_sems letter digit fs2 vs2)) ->
+  infer_cmd_fs letter digit ph F flog fadd fgt fields lower fs1 root1 target =
+  infer_cmd_fs letter digit ph F flog fadd fgt fields lower fs2 root2 target.
+Proof. intros F flog fadd fgt fields lower ph letter digit. exact (infer_cmd_fs_layout ph letter digit F flog fadd fgt fields lower). Qed.
+Print Assumptions C15_training_layout_irrelevant.
+
+(* the files may reach the trainer in any order (the scheduler's) *)
+Theorem C15_training_arrival_irrelevant :
+  forall F flog fadd fgt fields lower ph letter digit arrive fs troot target,
+  (forall l, Permutation l (arrive l)) ->
+  infer_cmd_fs_arrival letter digit ph F flog fadd fgt fields lower arrive fs troot target =
+  infer_cmd_fs letter digit ph F flog fadd fgt fields lower fs troot target.
+Proof. intros F flog fadd fgt fields lower ph letter digit. exact (infer_cmd_fs_arrival_irrelevant ph letter digit F flog fadd fgt fields lower). Qed.
+Print Assumptions C15_training_arrival_irrelevant.
+
+(* a tree is as good as ONE training file holding its transactions in any order: the command of
+   Model/BayesScore.v (this is how the check evaluates the model on generated trees) *)
+Theorem C15_training_tree_as_one_file :
+  forall F flog fadd fgt fields lower ph letter digit fs root vs training ftr target,
+  visits (skeleton letter digit fs) root vs -> parse_text letter digit training = ParseOk ftr ->
+  Permutation (trxs (training_sems letter digit fs vs)) (trxs (sem training ftr)) ->
+  infer_cmd_fs letter digit ph F flog fadd fgt fields lower fs root target =
+  infer_scored F flog fadd fgt fields lower ph letter digit training target.
+Proof. intros F flog fadd fgt fields lower ph letter digit. exact (infer_cmd_fs_as_one_file ph letter digit F flog fadd fgt fields lower). Qed.
+Print Assumptions C15_training_tree_as_one_file.
+
+(* a training file without include directives: exactly the one-file command above *)
+Theorem C15_training_without_includes :
+  forall F flog fadd fgt fields lower ph letter digit fs root training target,
+  tlookup fs root = Some training ->
+  (forall ftr t, parse_text letter digit training = ParseOk ftr -> ~ In (SemInclude t) (sem training ftr)) ->
+  infer_cmd_fs letter digit ph F flog fadd fgt fields lower fs root target =
+  infer_scored F flog fadd fgt fields lower ph letter digit training target.
+Proof. intros F flog fadd fgt fields lower ph letter digit. exact (infer_cmd_fs_no_includes ph letter digit F flog fadd fgt fields lower). Qed.
+Print Assumptions C15_training_without_includes.
+
+(* AN INCLUDE CYCLE IN THE TRAINING JOURNAL IS AN ERROR: exit 1, nothing is printed (nothing is
+   written).  [S] is a set of files each of which parses and includes a file of the set. *)
+Theorem C15_training_cycle_is_error :
+  forall F flog fadd fgt fields lower ph letter digit fs (S : LoaderM.path -> Prop) troot target,
+  (forall p, S p -> exists text f t, tlookup fs p = Some text /\ parse_text letter digit text = ParseOk f /\
+                                     In (SemInclude t) (sem text f) /\ S (resolve p t)) ->
+  S troot ->
+  infer_cmd_fs letter digit ph F flog fadd fgt fields lower fs troot target = InferErr.
+Proof. intros F flog fadd fgt fields lower ph letter digit. exact (infer_cmd_fs_cycle ph letter digit F flog fadd fgt fields lower). Qed.
+Print Assumptions C15_training_cycle_is_error.
+
+(* so is a missing or unparseable file anywhere in the include graph *)
+Theorem C15_training_bad_file_is_error :
+  forall F flog fadd fgt fields lower ph letter digit fs troot p target,
+  reach (skeleton letter digit fs) troot p ->
+  (tlookup fs p = None \/ exists text, tlookup fs p = Some text /\ forall f, parse_text letter digit text <> ParseOk f) ->
+  infer_cmd_fs letter digit ph F flog fadd fgt fields lower fs troot target = InferErr.
+Proof. intros F flog fadd fgt fields lower ph letter digit. exact (infer_cmd_fs_bad_file ph letter digit F flog fadd fgt fields lower). Qed.
+Print Assumptions C15_training_bad_file_is_error.
+
+(* ---- the theorems above, restated for the command on a file tree ---- *)
+
+(* the command with its real choice is the command for a valid choice function *)
+Theorem C15_fs_scored_is_infer_with : forall F flog fadd fgt fields lower ph letter digit fs troot target,
+  exists choose, valid_choose choose /\
+    infer_cmd_fs letter digit ph F flog fadd fgt fields lower fs troot target =
+    infer_with_fs letter digit ph Fixed choose fs troot target.
+Proof. intros F flog fadd fgt fields lower ph letter digit. exact (infer_cmd_fs_is_infer_with_fs ph letter digit F flog fadd fgt fields lower). Qed.
+Print Assumptions C15_fs_scored_is_infer_with.
+
+(* candidates are accounts of bookings of transactions of VISITED files, never the placeholder
+   (with C15_candidate_valid / C15_no_candidate_unchanged, which speak about any candidate list) *)
+Theorem C15_fs_candidates_from_training : forall ph letter digit fs files x,
+  In x (candidates ph (training_sems letter digit fs files)) ->
+  x <> ph /\ exists p d, In p files /\ In d (file_sems letter digit fs p) /\ In x (booking_accounts d).
+Proof. exact candidates_from_files. Qed.
+Print Assumptions C15_fs_candidates_from_training.
+
+(* only_placeholder + candidate_valid + parses + roundtrip: whatever is printed parses; its
+   meaning is the target's with exactly the placeholder sides substituted (directive_rel against
+   the candidates of the visited files; infer_ok_b holds of it); its gaps are the target's; it
+   is in formatted form *)
+Theorem C15_fs_roundtrip : forall ph letter digit choose fs troot target out,
+  class_ok letter digit -> valid_choose choose ->
+  infer_with_fs letter digit ph Fixed choose fs troot target = InferOut out ->
+  exists files ftg f' k,
+    training_files letter digit fs troot = TrOk files /\
+    parse_text letter digit target = ParseOk ftg /\
+    parse_text letter digit out = ParseOk f' /\
+    infer_sems ph Fixed choose (candidates ph (training_sems letter digit fs files)) 0%nat (sem target ftg) = (sem out f', k) /\
+    Forall2 (directive_rel ph Fixed (candidates ph (training_sems letter digit fs files))) (sem target ftg) (sem out f') /\
+    infer_ok_b ph (training_sems letter digit fs files) (sem target ftg) (sem out f') = true /\
+    gaps out f' = gaps target ftg /\
+    format_text letter digit out f' = FOk out.
+Proof. intros ph letter digit. exact (infer_with_fs_roundtrip ph letter digit). Qed.
+Print Assumptions C15_fs_roundtrip.
+
+(* a training journal that loads and a target that parses: the command prints a text *)
+Theorem C15_fs_total : forall ph letter digit choose fs troot files target ftg,
+  valid_choose choose ->
+  training_files letter digit fs troot = TrOk files -> parse_text letter digit target = ParseOk ftg ->
+  exists out, infer_with_fs letter digit ph Fixed choose fs troot target = InferOut out.
+Proof. intros ph letter digit. exact (infer_with_fs_total ph letter digit). Qed.
+Print Assumptions C15_fs_total.
+
+Theorem C15_fs_idempotent : forall ph letter digit choose choose' fs troot target out,
+  class_ok letter digit -> valid_choose choose -> valid_choose choose' ->
+  infer_with_fs letter digit ph Fixed choose fs troot target = InferOut out ->
+  infer_with_fs letter digit ph Fixed choose' fs troot out = InferOut out.
+Proof. intros ph letter digit. exact (infer_with_fs_idempotent ph letter digit). Qed.
+Print Assumptions C15_fs_idempotent.
+
+Theorem C15_fs_rest_is_format : forall ph letter digit choose fs troot files target ftg,
+  class_ok letter digit -> valid_choose choose ->
+  training_files letter digit fs troot = TrOk files -> parse_text letter digit target = ParseOk ftg ->
+  exists out fmt f' ff,
+    infer_with_fs letter digit ph Fixed choose fs troot target = InferOut out /\
+    format_text letter digit target ftg = FOk fmt /\
+    parse_text letter digit out = ParseOk f' /\ parse_text letter digit fmt = ParseOk ff /\
+    sem fmt ff = sem target ftg /\
+    Forall2 (directive_rel ph Fixed (candidates ph (training_sems letter digit fs files))) (sem target ftg) (sem out f') /\
+    gaps out f' = gaps target ftg /\ gaps fmt ff = gaps target ftg /\
+    render Utf8M.decode (sem out f') (gaps target ftg) = Some out /\
+    render Utf8M.decode (sem target ftg) (gaps target ftg) = Some fmt /\
+    format_text letter digit out f' = FOk out /\ format_text letter digit fmt ff = FOk fmt.
+Proof. intros ph letter digit. exact (infer_with_fs_rest_is_format ph letter digit). Qed.
+Print Assumptions C15_fs_rest_is_format.
+
+(* the whole property for the command on a file tree with its real choice *)
+Theorem C15_fs_infer_correct : forall F flog fadd fgt fields lower ph letter digit fs troot files target ftg,
+  class_ok letter digit ->
+  training_files letter digit fs troot = TrOk files -> parse_text letter digit target = ParseOk ftg ->
+  exists out f',
+    infer_cmd_fs letter digit ph F flog fadd fgt fields lower fs troot target = InferOut out /\
+    parse_text letter digit out = ParseOk f' /\
+    infer_ok_b ph (training_sems letter digit fs files) (sem target ftg) (sem out f') = true /\
+    gaps out f' = gaps target ftg /\
+    format_text letter digit out f' = FOk out /\
+    infer_cmd_fs letter digit ph F flog fadd fgt fields lower fs troot out = InferOut out.
+Proof. intros F flog fadd fgt fields lower ph letter digit. exact (infer_cmd_fs_correct ph letter digit F flog fadd fgt fields lower). Qed.
+Print Assumptions C15_fs_infer_correct.
+
+(* ... for the real parser, without hypothesis on the character classes *)
+Theorem C15_fs_infer_correct_unicode : forall F flog fadd fgt fields lower ph fs troot files target ftg,
+  training_files is_letter is_digit fs troot = TrOk files -> parse_text is_letter is_digit target = ParseOk ftg ->
+  exists out f',
+    infer_cmd_fs is_letter is_digit ph F flog fadd fgt fields lower fs troot target = InferOut out /\
+    parse_text is_letter is_digit out = ParseOk f' /\
+    infer_ok_b ph (training_sems is_letter is_digit fs files) (sem target ftg) (sem out f') = true /\
+    gaps out f' = gaps target ftg /\
+    format_text is_letter is_digit out f' = FOk out /\
+    infer_cmd_fs is_letter is_digit ph F flog fadd fgt fields lower fs troot out = InferOut out.
+Proof.
+  intros F flog fadd fgt fields lower ph fs troot files target ftg.
+  exact (infer_cmd_fs_correct ph is_letter is_digit F flog fadd fgt fields lower fs troot files target ftg unicode_class_ok).
+Qed.
+Print Assumptions C15_fs_infer_correct_unicode.
+
 (* ---- the code before e8bd689 (variant Orig): refutations by witnesses (findings/C15-infer.md) ---- *)
 
 Definition tbd : str := Eval vm_compute in runes_of_string "Expenses:TBD"%string.
@@ -448,3 +656,71 @@ A C          1 CHF
   infer_scored Z zlog Z.add Z.gtb one_field same tbd is_letter is_digit w_tie2 w_tie_target =
   infer_scored Z zlog Z.add Z.gtb one_field same tbd is_letter is_digit w_tie1 w_tie_target.
 Proof. split; vm_compute; reflexivity. Qed.
+
+(* ---- the training journal over an include tree, run ---- *)
+
+(* "a" includes "s/b"; the two transactions of w_tie1, one in each file *)
+Definition w_tree : tfs :=
+  [ ([[97]], runes_of_string "include ""s/b""
+
+2020-01-01 ""a""
+A C 1 CHF
+"%string);
+    ([[115]; [98]], runes_of_string "2020-01-01 ""a""
+B C 1 CHF
+"%string) ].
+Definition w_flat : tfs := [ ([[116]], w_tie1) ].
+(* "a" includes "s/b", "s/b" includes "../a" *)
+Definition w_cycle : tfs :=
+  [ ([[97]], runes_of_string "include ""s/b""
+"%string);
+    ([[115]; [98]], runes_of_string "2020-01-01 ""a""
+B C 1 CHF
+
+include ""../a""
+"%string) ].
+
+Example C15_fs_tree_runs :
+  training_files is_letter is_digit w_tree [[97]] = TrOk [[[97]]; [[115]; [98]]] /\
+  infer_cmd_fs is_letter is_digit tbd Z zlog Z.add Z.gtb one_field same w_tree [[97]] w_tie_target =
+  InferOut (runes_of_string "2020-01-02 ""a""
+A C          1 CHF
+"%string) /\
+  infer_cmd_fs is_letter is_digit tbd Z zlog Z.add Z.gtb one_field same w_flat [[116]] w_tie_target =
+  InferOut (runes_of_string "2020-01-02 ""a""
+A C          1 CHF
+"%string).
+Proof. split; [|split]; vm_compute; reflexivity. Qed.
+
+(* the hypotheses of C15_training_layout_irrelevant are satisfiable (and hold of these two) *)
+Definition sk_tree : LoaderM.fsys := Eval vm_compute in skeleton is_letter is_digit w_tree.
+Definition sk_flat : LoaderM.fsys := Eval vm_compute in skeleton is_letter is_digit w_flat.
+Example C15_fs_layout_hypotheses :
+  exists vs1 vs2,
+    visits (skeleton is_letter is_digit w_tree) [[97]] vs1 /\ visits (skeleton is_letter is_digit w_flat) [[116]] vs2 /\
+    Permutation (trxs (training_sems is_letter is_digit w_tree vs1)) (trxs (training_sems is_letter is_digit w_flat vs2)).
+Proof.
+  exists [[[97]]; [[115]; [98]]], [[[116]]].
+  replace (skeleton is_letter is_digit w_tree) with sk_tree by (vm_compute; reflexivity).
+  replace (skeleton is_letter is_digit w_flat) with sk_flat by (vm_compute; reflexivity).
+  split; [|split].
+  - eapply (visits_file _ [[97]] _ [[[[115]; [98]]]]); [vm_compute; reflexivity|].
+    vm_compute. constructor; [|constructor].
+    eapply (visits_file _ [[115]; [98]] _ []); [vm_compute; reflexivity|vm_compute; constructor].
+  - eapply (visits_file _ [[116]] _ []); [vm_compute; reflexivity|vm_compute; constructor].
+  - vm_compute. apply perm_swap.
+Qed.
+
+(* an include cycle: the hypotheses of C15_training_cycle_is_error hold, and the model says InferErr *)
+Example C15_fs_cycle_runs :
+  (exists e, training_files is_letter is_digit w_cycle [[97]] = TrErr e) /\
+  infer_cmd_fs is_letter is_digit tbd Z zlog Z.add Z.gtb one_field same w_cycle [[97]] w_tie_target = InferErr /\
+  tclosed is_letter is_digit w_cycle (fun p => p = [[97]] \/ p = [[115]; [98]]).
+Proof.
+  split; [eexists; vm_compute; reflexivity|]. split; [vm_compute; reflexivity|].
+  intros p [->| ->].
+  - do 3 eexists. split; [vm_compute; reflexivity|]. split; [vm_compute; reflexivity|].
+    split; [vm_compute; left; reflexivity|]. right. vm_compute. reflexivity.
+  - do 3 eexists. split; [vm_compute; reflexivity|]. split; [vm_compute; reflexivity|].
+    split; [vm_compute; right; left; reflexivity|]. left. vm_compute. reflexivity.
+Qed.
